@@ -220,6 +220,8 @@ def _run(case, out, server, clients, hx):
         server.upload_policy = pending_policy
         n_up = len(server.uploads)
         n_x_before = len(uploads)
+        _db0 = db_rows(hx, phone)
+        pending_before = set(k for k, (sent, pub) in _db0["keys"].items() if not sent) if _db0 else set()
         if kind == "connect":
             if not cx.connected():
                 unsent_before = None
@@ -341,6 +343,13 @@ def _run(case, out, server, clients, hx):
                     fail("upload:passive_login_upload_differs_from_pending_keys",
                          {"step": step, "uploaded": sorted(u["keys"]), "pending": sorted(pending)})
                     return out
+            # ... and in particular every key that was pending before this login (a later login of the same operation may have
+            # confirmed it by now, which the comparison above cannot see)
+            missing = pending_before - set(u["keys"])
+            if missing:
+                fail("upload:key_pending_before_login_not_offered_at_that_login", {"step": step, "missing": sorted(missing),
+                                                                                   "uploaded": sorted(u["keys"])})
+                return out
     out.info = {"nt": nt}
     return out
 
